@@ -65,6 +65,11 @@ fn main() {
         "c03_reset" => c03::reset(&v),
         "c03_fold" => c03::fold(&v),
         "c03_reset_hard" => c03::reset_hard(&v),
+        "c03_force_checkout" => c03::force_checkout(&v),
+        "c03_merge_checkout" => c03::merge_checkout(&v),
+        "c03_pre_reset" => c03::pre_reset(&v),
+        "c03_stash_scope" => c03::stash_scope(&v),
+        "c03_staged_then_rewritten" => c03::staged_then_rewritten(&v),
         "c04_split" => c04::split(&v),
         "c04_post_commit_scope" => c04::post_commit_scope(&v),
         "c04_amend_scope" => c04::amend_scope(&v),
@@ -106,6 +111,7 @@ fn main() {
         "c19_totals" => c19::totals(&v),
         "c19_numstat" => c19::numstat(&v),
         "c20_checkpoint" => c20::checkpoint(&v),
+        "c20_hook_path" => c20::hook_path(&v),
         "c18_parse" => c18::parse(&v),
         "c18_alias_tokens" => c18::alias_tokens(&v),
         "c18_alias_resolve" => c18::alias_resolve(&v),
